@@ -1005,16 +1005,36 @@ func (r *FnRun) execInstr(b *ssa.BasicBlock, idx int, ins ssa.Instruction, st *S
 		case "false":
 			r.execBlock(b.Succs[1], b, st)
 		default:
+			if r.C != nil && r.C.Opts["prune"] == "yes" {
+				s1 := st.clone()
+				s1.assume(c, "branch")
+				s2 := st.clone()
+				s2.assume(Not(c), "branch")
+				switch {
+				case r.infeasible(s1):
+					s2.addTrace("b%d: else (then-branch infeasible)", b.Index)
+					r.execBlock(b.Succs[1], b, s2)
+					return true
+				case r.infeasible(s2):
+					s1.addTrace("b%d: then (else-branch infeasible)", b.Index)
+					r.execBlock(b.Succs[0], b, s1)
+					return true
+				}
+			}
 			if r.tryMergeIf(b, c, st) {
 				return true
 			}
 			s1 := st.clone()
 			s1.assume(c, "branch")
 			s1.addTrace("b%d: then", b.Index)
-			r.execBlock(b.Succs[0], b, s1)
+			if !r.infeasible(s1) {
+				r.execBlock(b.Succs[0], b, s1)
+			}
 			st.assume(Not(c), "branch")
 			st.addTrace("b%d: else", b.Index)
-			r.execBlock(b.Succs[1], b, st)
+			if !r.infeasible(st) {
+				r.execBlock(b.Succs[1], b, st)
+			}
 		}
 		return true
 	case *ssa.Return:
@@ -2090,4 +2110,28 @@ func globalNeverWritten(pkg *ssa.Package, g *ssa.Global) string {
 		}
 	}
 	return ""
+}
+
+
+// infeasible: with `opt prune yes` a branch whose path condition the solver
+// proves unsatisfiable is not explored (used by contracts that specify a
+// function only under a restricting precondition, e.g. the nil-map cases).
+func (r *FnRun) infeasible(st *State) bool {
+	if r.C == nil || r.C.Opts["prune"] != "yes" || ReplaySolver == nil {
+		return false
+	}
+	// pruning is meant for contracts whose precondition cuts the function down to
+	// a few blocks: a budget keeps a changed function from costing minutes
+	root := r
+	for root.parent != nil {
+		root = root.parent
+	}
+	root.siteCnt["prune-queries"]++
+	if root.siteCnt["prune-queries"] > 12 {
+		panic(unsupported("more than 12 feasibility queries: the function is no longer cut down to a few blocks by the contract's precondition"))
+	}
+	g := &Goal{Run: r}
+	q := RenderQuery(r.E.Specs.Prelude, st.log[:len(st.log):len(st.log)], False, lazyDecls(g))
+	res := ReplaySolver.SolveQuick(r.FnName+"/prune", q)
+	return res.Status == "unsat"
 }
